@@ -170,7 +170,7 @@ def _two_waits(w1: int, w2: int):
     return wf
 
 
-@obligation(quick=240, thorough=600, partitions_quick=[f"it == {i}" for i in (2, 3, 4)], partitions_thorough=[f"it == {i} and w1 == {w}" for i in (2, 3, 4, 5) for w in (1, 2, 3, 4)],
+@obligation(quick=240, thorough=600, partitions_quick=[f"it == {i}" for i in (2, 3, 4)], partitions_thorough=[f"it == {i} and w1 == {w}" for i in (2, 3, 4, 5) for w in range(1, i)],
             what="two wait_for_event timeouts in a row, each SHORTER than idle_timeout (so outside the class of KF-C14-1), nobody answers: the "
                  "second idle period starts while the first period's release timer is still pending — both TimeoutErrors are delivered and "
                  "the handler completes ('timeout+timeout'); the run is not released on the first period's stale timer",
